@@ -122,8 +122,10 @@ def eval_form(f, cev, rev):
             eval_form(c, cev, rev)
 
 
-def simulate(chunks, dfinal):
+def simulate(chunks, dfinal, dlog=None):
     """chunks: list of lists of top-level items (one chunk unless REPL). dfinal: the definer's final table.
+    dlog: when the definer has not been imported yet, its own complete log - compiling the first
+    `require` imports (compiles and runs) it at that point.
     Returns (expected log, name of the undefined reader macro or None, final table)."""
     T, log = {}, []
     for chunk in chunks:
@@ -144,6 +146,9 @@ def simulate(chunks, dfinal):
                             eval_form(f, log, run)
                     T[it[1]["name"]] = it[1]
                 elif k == "req":
+                    if dlog is not None:
+                        log += dlog
+                        dlog = None
                     names = sorted(dfinal) if it[1] == "*" else it[1]
                     for n in names:
                         T[n] = dfinal[n]
@@ -363,7 +368,16 @@ def gen_case(rng, tier):
             "texts": ["\n".join(render_item(it, DMOD) for it in ch) + "\n" for ch in chunks],
         }
     order = ["D"] + rng.sample(["Q", "U"], 2)
-    return {"streams": streams, "order": order, "dfinal": dfinal,
+    lazy = rng.random() < 0.4
+    if lazy:
+        # the definer is a module file that is imported for the first time while the requirer is
+        # being compiled (by its `require`): its own uses must still work, and the requirer must
+        # see only the reader macros it listed
+        streams["D"]["mode"] = "file"
+        streams["D"]["chunks"] = [d.items]
+        streams["D"]["texts"] = ["\n".join(render_item(it, DMOD) for it in d.items) + "\n"]
+        order = order[1:]
+    return {"streams": streams, "order": order, "dfinal": dfinal, "lazy": lazy,
             "probe_names": sorted(dfinal)[:3]}
 
 
@@ -486,12 +500,21 @@ def run_case(case):
     for m in (DMOD, QMOD, UMOD):
         sys.modules.pop(m, None)
     dfinal = case["dfinal"]
+    lazy = case.get("lazy")
     try:
         with G.BuiltinLogger() as lg:
+            if lazy:
+                with open(os.path.join(env.scratch(), DMOD + ".hy"), "w", encoding="utf-8") as f:
+                    f.write(case["streams"]["D"]["texts"][0])
+                importlib.invalidate_caches()
+                classes.append("lazy-definer")
             for role in case["order"]:
                 st = case["streams"][role]
                 modname = {"D": DMOD, "Q": QMOD, "U": UMOD}[role]
-                want_log, want_err, T = simulate(st["chunks"], dfinal)
+                dlog = None
+                if lazy and role == "Q" and DMOD not in sys.modules:
+                    dlog = simulate(case["streams"]["D"]["chunks"], {})[0]
+                want_log, want_err, T = simulate(st["chunks"], dfinal, dlog)
                 del lg.events[:]
                 prior = HyReader._current_reader if has_cur else None
                 exc, mod = load_stream(env, modname, st, lg)
@@ -528,8 +551,16 @@ def run_case(case):
                     keys = set(getattr(mod, "_hy_reader_macros", {}))
                     if keys != set(T):
                         return fail(f"{label}: module _hy_reader_macros has {sorted(keys)}, expected {sorted(T)}; stream:\n{text}")
+                if lazy and role == "Q":
+                    dm = sys.modules.get(DMOD)
+                    if dm is not None:
+                        classes.append("lazy-definer:imported-by-require")
+                        keys = set(getattr(dm, "_hy_reader_macros", {}))
+                        if keys != set(dfinal):
+                            return fail(f"module {DMOD} (imported by the require in {label}) has _hy_reader_macros "
+                                        f"{sorted(keys)}, expected {sorted(dfinal)}")
                 if st["split"]:
-                    res["nt_keys"].append([st["texts"], st["mode"]])
+                    res["nt_keys"].append([st["texts"], st["mode"], bool(lazy)])
                 if role == "D":
                     env.dmod = mod
                 # fresh readers in between: nothing defined anywhere is visible to them
